@@ -200,6 +200,8 @@ pub fn optimize(code: Vec<UnOptCode>, level: u8) -> Result<(OptState, Vec<OptCod
             chk.push(now);
             if un_opt_code.get_type() == 5 {
                 now = un_opt_code.get_dot_count();
+                // a selected stack can be popped by this command's area or after a jump
+                chk.push(now);
             }
         }
 
